@@ -227,7 +227,11 @@ def build(shape, coords, seed=None):
 
     d2 = Data(y=np.where(np.isfinite(x), x * 8, x), z=np.zeros(shape), label='e')
     d3 = Data(q=np.zeros(shape), label='u')
-    dc = DataCollection([d, d2, d3])
+    # a table joined to d by key (d.i holds the keys 0..4): its selections reach d only through the join
+    dj = Data(k=np.array([0, 1, 2, 3, 4]), v=np.array([5., 1., 4., 2., 3.]), label='j')
+    d.join_on_key(dj, 'i', 'k')
+    w.dj = dj
+    dc = DataCollection([d, d2, d3, dj])
     dc.add_link(LinkSame(d.id['x'], d2.id['y']))
     dc.add_link(ComponentLink([d.id['x'], d.id['i']], d2.id['z'], using=_f2))
     for k in range(nd):
@@ -294,6 +298,9 @@ def selection_table(w):
         T[name] = (factory, cls, reads)
 
     add('empty', 'Empty', [], lambda: ss.SubsetState())
+    add('join_some', 'KeyJoin', ['i'], lambda: w.dj.id['v'] > 2.5)
+    add('join_none', 'KeyJoin', ['i'], lambda: w.dj.id['v'] > 1e9)      # selects nothing on the other side
+    add('join_and', 'KeyJoin', ['i'], lambda: (w.dj.id['v'] > 1.5) & (w.dj.id['k'] < 3))
     add('ineq_x', 'Inequality', ['x'], lambda: cid['x'] > mid)
     add('ineq_i', 'Inequality', ['i'], lambda: cid['i'] <= 2)
     add('ineq_xi', 'Inequality', ['x', 'i'], lambda: ss.InequalitySubsetState(cid['x'], cid['i'], operator.lt))
